@@ -1906,7 +1906,7 @@ func TestC07Sort(t *testing.T) {
 
 func TestC07KeyExpr(t *testing.T) {
 	fw.Run(t, fw.Spec[sortCase]{
-		ID: "C07", Name: "key_expr", Quick: 8000, Thorough: 160000,
+		ID: "C07", Name: "key_expr", Quick: 8000, Thorough: 120000,
 		Gen: genKeyExprCase, Check: checkCase,
 		Rule: "tables, key lists and cuts as in 'sort' / 'cut'; 75% of the ORDER BY items are expressions over their key column instead of the bare name: table-qualified name, k + 0, 2 * k, k * -1, ABS(k) (numbers), UPPER / LOWER / k || '' (text), DATETIME(k) (datetimes), COALESCE(k, c) and CASE WHEN k IS NULL THEN c ELSE k END with a constant of the column's kind, RANK() / DENSE_RANK() / ROW_NUMBER() OVER (ORDER BY k [ASC|DESC] [NULLS FIRST|LAST][, id]), a constant; 30% of them are written as a select-list item 'expr AS x' with ORDER BY naming the alias; FROM is the table, the table under an alias (keys qualified with it), the table cross-joined with a one-row derived table, or the table joined with itself on the unique id (keys taken alternately from the two copies); oracle: the reference computes the value of every expression per row (negation / absolute value numerically, NULL replacement, rank / dense rank / row number from the reference order of the inner key) and then applies the 'sort' / 'cut' oracle to these derived columns; non-trivial as in 'sort' / 'cut' (on the derived keys), distinct additionally by (expression kinds, alias use, FROM shape)",
 		Assumptions: []string{assumeDomain, assumeNeg, assumePct,
